@@ -139,6 +139,25 @@ def run(rep: Report, only_params: bool = False, only_variant=None) -> None:
             rep.check(not ev and same_dict, "declared-parameters-untouched", label + " more_out", where,
                       (ev[0].detail if ev else f"the caller's parameter dict now has keys {list(pd2)}"),
                       key=f"paramdict|c={min(max(compact, 0), 2)}")
+            # a declared parameter need not be a scalar (e.g. one symbol for the capacities of two ramps)
+            net5 = CP.build_network(prog, st, same_names=same, variant=variant)
+            CP.set_opaque_states(net5, clamp_init=clamp)
+            pd5 = {"C": TV(E.vcat(E.S("p.C0"), E.S("p.C1")), 1, False), "rho_crit": TV(E.S("p.rho_crit"), 1, False)}
+            r5 = CP.to_function(prog, net5, compact=compact, more_out=False, parameters=pd5,
+                                other={"T": TV(E.S("T"), 0, False)})
+            if r5[0] == "raise":
+                rep.refuted("vector-parameter", label + " with a 2-entry parameter", where,
+                            f"to_function raises {r5[1].exc}: {r5[1].msg}", key=f"vecpar|raise|c={min(max(compact, 0), 2)}")
+            else:
+                nz5 = M.make_normalizer(None)
+                try:
+                    ids5 = [CP.ident_of(x, nz5) for a in r5[2] for x in CP.flatten(net5.w, a, nz5)]
+                except (AnalysisError, E.ShapeError):
+                    ids5 = []
+                okv = sum(1 for c in ids5 if c is not None and c[1] == "p" and str(c[0]).startswith("C")) == 2
+                rep.check(okv, "vector-parameter", label + " with a 2-entry parameter", where,
+                          "the two entries of the declared parameter are not both arguments of the function",
+                          key=f"vecpar|c={min(max(compact, 0), 2)}")
             # a step parameter (the sampling time) may be declared symbolic just like an element parameter
             net3 = CP.build_network(prog, st, same_names=same, variant=variant)
             CP.set_opaque_states(net3, clamp_init=clamp)
@@ -290,6 +309,42 @@ def run(rep: Report, only_params: bool = False, only_variant=None) -> None:
                 rep.check(not bad, "variable-order-fixed", ck.cfg.label(), "ElementWithVars.init_vars", bad,
                           key=f"varorder|{bad[:50]}")
             rep.floor("configurations with caller-supplied variables compared for order", n_ord, 5)
+    if not only_params and not only_variant:
+        # the variables an element has after the real initialisation are the documented ones (they
+        # are what the arguments of the function are made of): no more, no fewer
+        documented = {
+            "Link": {"states": ["rho", "v"]},
+            "LinkWithVsl": {"states": ["rho", "v"], "actions": ["v_ctrl"]},
+            "Origin": {},
+            "MainstreamOrigin": {"states": ["w"], "actions": ["v_ctrl"], "disturbances": ["d"]},
+            "MeteredOnRamp": {"states": ["w"], "actions": ["r"], "disturbances": ["d"]},
+            "SimplifiedMeteredOnRamp": {"states": ["w"], "actions": ["q"], "disturbances": ["d"]},
+            "Destination": {},
+            "CongestedDestination": {"disturbances": ["d"]},
+        }
+        from ..interp import Raised as _Raised
+
+        n_doc = 0
+        for variant in ("merge", "bifurcation", "minimal"):
+            netd = CP.build_network(prog, "SX", variant=variant)
+            try:
+                CP.run_step(prog, netd)
+            except _Raised as e:
+                rep.refuted("variables-as-documented", f"network={variant}", "Network.step",
+                            f"stepping raises {e.exc}: {e.msg}", key=f"docvars|raise|{variant}")
+                continue
+            for el in netd.links + netd.origins + netd.dests:
+                cname = el.cls.split(":")[1]
+                want = documented.get(cname)
+                if want is None:
+                    continue
+                n_doc += 1
+                got = {g: list(el.attrs[g]) for g in ("states", "actions", "disturbances")
+                       if isinstance(el.attrs.get(g), dict) and el.attrs[g]}
+                rep.check(got == want, "variables-as-documented", f"{cname} `{el.ident}` (network={variant})",
+                          f"{cname}.init_vars", f"after init_vars the element has {got}, documented {want}: the "
+                          "function's arguments would not be the network's variables", key=f"docvars|{cname}")
+        rep.floor("elements compared with the documented variables", n_doc, 8)
     rep.analysed["option_combinations"] = n
     rep.floor("option combinations", n, 4 if only_variant else 6 if only_params else 30)
 
